@@ -70,6 +70,7 @@ func Exec(spec *Spec, c *sim.Case, script []int16, strict, keepLog bool, out *si
 	sim.SetCurrent(c)
 	sim.SetSite(spec.ID)
 	core.EnvSeed(c.EnvSeed)
+	core.PoolReset(c.EnvSeed)
 	inst := spec.New(c)
 	n := len(c.Programs)
 	recs := make([][]sim.Rec, n)
